@@ -23,6 +23,7 @@ import (
 	"errors"
 	"fmt"
 	"math/big"
+	"sort"
 
 	"github.com/youchainhq/go-youchain/common"
 	"github.com/youchainhq/go-youchain/common/hexutil"
@@ -183,7 +184,16 @@ func (st *StateDB) newStakingRecord(key biAddress) *stakingRecord {
 
 func (st *StateDB) updateStakingTrie() error {
 	//stakingRecords
+	// Walk the dirty records in key order: a record that cannot be written
+	// (encoding error) ends the walk, and which records were written before it
+	// must not depend on the map's iteration order, or nodes executing the same
+	// block end up with different staking roots.
+	dirtyKeys := make([]biAddress, 0, len(st.stakingRecordsDirty))
 	for key := range st.stakingRecordsDirty {
+		dirtyKeys = append(dirtyKeys, key)
+	}
+	sort.Slice(dirtyKeys, func(i, j int) bool { return bytes.Compare(dirtyKeys[i][:], dirtyKeys[j][:]) < 0 })
+	for _, key := range dirtyKeys {
 		sr := st.stakingRecords[key]
 		data, err := rlp.EncodeToBytes(sr)
 		if err != nil {
